@@ -802,7 +802,9 @@ Definition safe_step (s : st) (o : op) : bool :=
   match o with
   | PutDims _ dims => dims_ok dims
   | WriteAll _ => wall_safe s && nchunks_ok s
-  | WriteBlock b e _ => wblock_safe s b e && nchunks_ok s
+  | WriteBlock b e _ =>
+      (* a block of zero elements (b_start = b_end + 1) is accepted by the code; it is outside the specification *)
+      wblock_safe s b e && nchunks_ok s && negb (esz (h_ty (s_h s)) * (b - 1) =? esz (h_ty (s_h s)) * e)
   | WriteStrided _ _ => nchunks_ok s
   | _ => true
   end.
